@@ -314,10 +314,10 @@ Section Walk.
     induction n as [|n IH]; destruct m as [|m]; cbn; intros d H1 H2; auto.
     - destruct H1 as [c [Hc Hs]], H2 as [c' [Hc' [Hs' _]]].
       assert (c = c') by (eapply Bfun_fun; eassumption). subst.
-      unfold is_seed in *. cbn in *. congruence.
+      congruence.
     - destruct H2 as [c [Hc Hs]], H1 as [c' [Hc' [Hs' _]]].
       assert (c = c') by (eapply Bfun_fun; eassumption). subst.
-      unfold is_seed in *. cbn in *. congruence.
+      congruence.
     - destruct H1 as [c [Hc [_ H1]]], H2 as [c' [Hc' [_ H2]]].
       assert (c = c') by (eapply Bfun_fun; eassumption). subst.
       f_equal. eapply IH; eauto.
@@ -328,12 +328,12 @@ Section Walk.
   Proof.
     unfold children. rewrite in_map_iff. split.
     - intros [[d' c] [Hd Hin]]. cbn in Hd. subst. apply filter_In in Hin. destruct Hin as [Hin Hc].
-      unfold is_child in Hc. cbn in Hc. apply andb_true_iff in Hc. destruct Hc as [Hk Hs].
+      rewrite is_child_spec in Hc. cbn in Hc. apply andb_true_iff in Hc. destruct Hc as [Hk Hs].
       exists c. split; [exact Hin|]. split.
-      + unfold is_seed. cbn. rewrite Hk. reflexivity.
+      + rewrite is_seed_spec. cbn. rewrite Hk. reflexivity.
       + apply N.eqb_eq. exact Hs.
     - intros [c [Hin [Hs Hi]]]. exists (d, c). split; [reflexivity|]. apply filter_In. split; [exact Hin|].
-      unfold is_child, is_seed in *. cbn in *. apply negb_false_iff in Hs. rewrite Hs. cbn.
+      rewrite is_child_spec. rewrite is_seed_spec in Hs. cbn in *. apply negb_false_iff in Hs. rewrite Hs. cbn.
       apply N.eqb_eq. exact Hi.
   Qed.
 
@@ -640,7 +640,7 @@ Proof.
   { apply (walk_roots (blocker_rows sn) (S (length (blocker_rows sn))) (seeds (blocker_rows sn)));
       [|exact H].
     intros row0 Hr. unfold seeds in Hr. apply filter_In in Hr. destruct Hr as [_ Hs].
-    unfold is_seed in Hs. apply negb_true_iff in Hs. apply N.eqb_neq. exact Hs. }
+    rewrite is_seed_spec in Hs. apply negb_true_iff in Hs. apply N.eqb_neq. exact Hs. }
   assert (H2 : exists d, In (d, snd row) (blocker_rows sn)).
   { apply (walk_roots_in_B (blocker_rows sn) (S (length (blocker_rows sn))) (seeds (blocker_rows sn)));
       [|exact H].
